@@ -451,6 +451,25 @@ fn build_script(rng: &mut Rng, thorough: bool, out: &mut Out) -> Vec<Op> {
         let mut e = vec![];
         submit(&mut e, "load missing.asm");
         v.push(e);
+        // the program listing scrolled to different places, both step modes, auto-run, board values
+        for (prog, steps) in [("p1.asm", 3u32), ("p2.asm", 17), ("é.asm", 6), ("p2.asm", 150)] {
+            let mut f = vec![];
+            submit(&mut f, &format!("load {}", prog));
+            f.push(op(key_char('w', "c")));
+            submit(&mut f, &format!("next {}", steps));
+            submit(&mut f, "set TEMP = 2.55");
+            submit(&mut f, "set I1 = 4.99");
+            submit(&mut f, "set IRG = 0xAB");
+            submit(&mut f, "set J1");
+            submit(&mut f, "set UIO2");
+            submit(&mut f, "FF = 0b10101010");
+            f.push(op(key_char('a', "c")));
+            f.push(op(key_char('e', "c")));
+            if steps % 2 == 1 {
+                submit(&mut f, "show memory");
+            }
+            v.push(f);
+        }
         v
     };
     let mut n_sizes = 0u64;
